@@ -18,6 +18,11 @@ CHECKS = {
         design="4 C20"),
 }
 
+CHECKS["C19"] = dict(
+    technique="TLA+ spec Ops.tla: TLC steps the merge loop as a state machine against the closed form on all small lists (MC_Ops) and judges recorded executions of merge_concurrent_captions / adjust_caption_timing with exact BigNat arithmetic (Trace_Ops)",
+    text="Exhaustive within the bound for merging (all caption lists up to length 5 quick / 9 thorough over two time keys: loop = closed form, idempotent, conserving; each list replayed on the real function for 1 and 3 languages) and sampled beyond it (lists up to 30, 1-3 languages); retiming is judged on a grid of skews and offsets around the drop boundary and on random dyadic (exact) and decimal (1 ns tolerance) skews, every observation accepted or rejected by TLC.",
+    design="4 C19")
+
 NOT_YET = {}
 
 
